@@ -75,6 +75,13 @@ func converter() (string, error) {
 	return convPath, convErr
 }
 
+// cleanupConverter removes the temporary build directory of the converter.
+func cleanupConverter() {
+	if convDir != "" {
+		os.RemoveAll(convDir)
+	}
+}
+
 type convResult struct {
 	status string // ok | err | panic | fatal:<text>
 	text   string
